@@ -116,6 +116,9 @@ fn generate(rng: &mut Rng) -> C17Sc {
             clients,
             stop_at_ns: Some(stop_at),
             stop_before: rng.chance(1, 2),
+            // sometimes the listener (and then the tasks it spawned, and so on) get to run between the connects of the
+            // stop's instant and the stop call
+            yields_before_stop: *rng.pick(&[0u8, 0, 0, 1, 1, 2, 3]),
             cap_ns: 3 * secs(timeout_s) + secs(60),
         },
     }
@@ -211,8 +214,10 @@ fn accepted_before_stop(out: &NetOutcome, i: usize, stop_seq: u64) -> bool {
     // earlier virtual instant, or at the same instant but the connect event precedes the stop in the
     // event order AND the listener had the chance to run in between - which the driver does not give
     // it at an exact tie. So: strictly earlier instant only.
+    // (plus: the driver looks at the listener's accept log at the moment it calls the stop - a connection the
+    // listener had already taken from the queue by then is in progress, also at the very same instant)
     let stop_t = out.log.iter().find(|e| e.seq == stop_seq).map(|e| e.t_ns).unwrap_or(u64::MAX);
-    out.clients[i].accepted_ns.is_some_and(|t| t < stop_t)
+    out.clients[i].accepted_ns.is_some_and(|t| t < stop_t) || out.clients[i].accepted_before_stop_call
 }
 
 impl Check for C17 {
@@ -228,7 +233,7 @@ impl Check for C17 {
     }
     fn assumptions(&self) -> Vec<String> {
         vec![
-            "a connection counts as 'already in progress' when it was accepted at a strictly earlier virtual instant than the stop; connects issued at the stop's own instant before it are 'queued': either outcome (fully served / nothing) is accepted".into(),
+            "a connection counts as 'already in progress' when the listener had taken it from the accept queue before the stop was called (observed at the call, also within one virtual instant); connects issued at the stop's own instant that the listener had not yet accepted are 'queued': either outcome (fully served / nothing) is accepted".into(),
             "arrival order at an exact tie is the driver's event order".into(),
         ]
     }
@@ -278,6 +283,9 @@ impl Check for C17 {
             *rep.faults.entry("proxy_header_trickles_in".into()).or_insert(0) += 1;
         }
         let stop = sc.net.stop_at_ns.unwrap();
+        if out.clients.iter().any(|c| c.accepted_before_stop_call && c.accepted_ns == out.stop_ns) {
+            *rep.probes.entry("accepted_within_the_stops_instant_before_the_call".into()).or_insert(0) += 1;
+        }
         if sc.net.clients.iter().any(|c| c.connect_at_ns == stop) {
             *rep.probes.entry("stop_same_instant_as_connect".into()).or_insert(0) += 1;
         }
